@@ -177,6 +177,9 @@ def cases(tier, seed):
         for ops in with_write_faults():
             yield {"gen": gen, "ops": ops, "k": "wf"}
         yield {"gen": gen, "k": "api", "held": 10, "ops": []}
+    for gens in ((4, 5), (5, 5), (4, 4)):
+        for held in ((10, 1), (4, 11), (10, 10), (12, 3), (1, 1)):
+            yield {"k": "duo", "gens": list(gens), "held": list(held), "ops": []}
     n = 300 if tier == "quick" else 150000
     for i in range(n):
         yield {"gen": rnd.choice((4, 5)), "ops": gen_script(rnd)}
@@ -447,9 +450,84 @@ def run_api(case):
             "obs": obs, "sample": {"gen": gen, "api_level": True}}
 
 
+def run_duo(case):
+    """Two clients in one process, each with its own console and both links down: what one of
+    them holds does not count against the other's buffer and never reaches the other's
+    console."""
+    import asyncio
+    import pyairtouch.comms.socket as psock
+    from .. import apiworld as AW
+    from .. import console as C
+    from ..sockworld import quiesce
+    gens, held = case["gens"], case["held"]
+    viol, obs, out = [], {}, {}
+
+    async def main(loop, net, log):
+        ws = [AW.ApiWorld(g, loop, net, log, C.default_installation(g, 1, (2,)),
+                          C.Knobs(apply_commands=False), host=f"10.0.0.{i + 1}")
+              for i, g in enumerate(gens)]
+        for w in ws:
+            if await w.init() is not True:
+                out["init"] = False
+                return
+        await quiesce(loop)
+        net.default = ("refuse", 0.0)
+        for w in ws:
+            w.conn().transport.peer_eof()
+        await quiesce(loop)
+        res = []
+        # interleaved: a command of the first client, one of the second, ...
+        todo = [[("fan", k) for k in range(h)] for h in held]
+        while any(todo):
+            for i, w in enumerate(ws):
+                if not todo[i]:
+                    continue
+                _, k = todo[i].pop(0)
+                fans = w.ac.supported_fan_speeds
+                try:
+                    await w.ac.set_fan_speed(fans[k % len(fans)])
+                    res.append((i, k, "returned"))
+                except psock.QueueOverflowError:
+                    res.append((i, k, "QueueOverflowError"))
+        out["res"] = res
+        n0 = [len(w.console.frames) for w in ws]
+        net.default = ("accept", 0.0)
+        await asyncio.sleep(3.0)
+        await quiesce(loop)
+        out["flushed"] = [[cmd["kind"] for (t, c, f, cmd) in w.console.frames[n0[i]:]
+                           if cmd["kind"] not in ("ac_status_request", "zone_status_request")]
+                          for i, w in enumerate(ws)]
+        for w in ws:
+            await w.at.shutdown()
+
+    _, log, st = H.run(main)
+    if st != "ok" or out.get("init") is False or "flushed" not in out:
+        viol.append({"mechanism": "socket-scenario-hang", "detail": {"status": st, "out": repr(out)}})
+        return {"violations": viol, "evals": 1, "decided": 0, "obs": obs}
+    for i, k, r in out["res"]:
+        want = "returned" if k < CAP else "QueueOverflowError"
+        if r != want:
+            viol.append({"mechanism": ("overflow-raised-with-room-left" if want == "returned"
+                                       else "eleventh-message-accepted") + ":two-clients",
+                         "detail": {"gens": gens, "held": held, "client": i, "nth": k + 1,
+                                    "outcome": r}})
+    for i in (0, 1):
+        want = ["ac_control"] * min(held[i], CAP)
+        if out["flushed"][i] != want:
+            viol.append({"mechanism": "held-message-not-transmitted-on-connect:two-clients",
+                         "detail": {"gens": gens, "held": held, "console": i,
+                                    "flushed": out["flushed"][i][:14], "want": len(want)}})
+    if not viol:
+        obs["two_clients_holding_messages_at_once"] = 1
+    return {"violations": H.cap(viol), "evals": len(out["res"]), "decided": 1, "obs": obs,
+            "sample": {"gens": gens, "held": held}}
+
+
 def run_case(case):
     if case.get("k") == "api":
         return run_api(case)
+    if case.get("k") == "duo":
+        return run_duo(case)
     gen = case["gen"]
     run = S.run_script(gen, case["ops"], settle=10.0)
     if case.get("k") == "wf":
